@@ -290,7 +290,28 @@ fn dict_shape_run<K: El, V: El, const N: usize>(name: &str, universe: &[K], vals
             10 => { if rng.below(3) == 0 { let take = rng.below(r.len() + 2); let got: Vec<(K, V)> = m.drain().take(take).collect();
                    expect(got.len() == take.min(r.len()) && got.iter().all(|(a, b)| r.iter().any(|(c, d)| a == c && b == d)), format!("drain().take({}) yielded {:?} from {:?}", take, got, r)); r.clear(); } }
             11 => match (pos, r.len() < N) {
-                (Some(i), _) => { let got = m.entry(k.clone()).or_insert(v); expect(*got == r[i].1, format!("entry({:?}).or_insert on a present key gives {:?}", k, got)); }
+                (Some(i), _) => {
+                    // every reference handed to a user closure or returned points INTO the container value (also for
+                    // plain-data values, which code may be tempted to copy out and back)
+                    let (lo, hi) = (m as *const Map<K, V, N> as usize, m as *const Map<K, V, N> as usize + std::mem::size_of::<Map<K, V, N>>());
+                    let inside = |a: usize, sz: usize| sz == 0 || (a >= lo && a + sz <= hi);
+                    let (vs, ks) = (std::mem::size_of::<V>(), std::mem::size_of::<K>());
+                    let mut seen = 0usize;
+                    let e = m.entry(k.clone()).and_modify(|x| { seen = x as *mut V as usize; });
+                    let ka = e.key() as *const K as usize;
+                    let got = e.or_insert(v.clone()); let ga = got as *mut V as usize;
+                    expect(*got == r[i].1, format!("entry({:?}).and_modify(..).or_insert on a present key gives {:?}", k, got));
+                    expect(inside(seen, vs) && inside(ga, vs) && inside(ka, ks) && (vs == 0 || seen == ga), format!("entry({:?}): and_modify showed its closure a value at {:#x}, or_insert returned {:#x}, key() {:#x}: not (the same place) inside the map {:#x}..{:#x}", k, seen, ga, ka, lo, hi));
+                    let ra = m.get(&k).map(|x| x as *const V as usize).unwrap_or(lo); let ma = m.get_mut(&k).map(|x| x as *mut V as usize).unwrap_or(lo);
+                    expect(vs == 0 || (ra == ga && ma == ga), format!("get / get_mut of {:?} point at {:#x} / {:#x}, the entry API at {:#x}", k, ra, ma, ga));
+                    let mut bad_ref = None;
+                    m.retain(|a, b| { let (x, y) = (a as *const K as usize, b as *mut V as usize); if !(inside(x, ks) && inside(y, vs)) { bad_ref = Some((x, y)); } true });
+                    expect(bad_ref.is_none(), format!("retain handed its predicate references outside the map: {:?}", bad_ref));
+                    let mut bad_it = None;
+                    for (a, b) in m.iter_mut() { let (x, y) = (a as *const K as usize, b as *mut V as usize); if !(inside(x, ks) && inside(y, vs)) { bad_it = Some((x, y)); } }
+                    for b in m.values_mut() { let y = b as *mut V as usize; if !inside(y, vs) { bad_it = Some((0, y)); } }
+                    expect(bad_it.is_none(), format!("iter_mut / values_mut yield references outside the map: {:?}", bad_it));
+                }
                 (None, true) => { r.push((k.clone(), v.clone())); let got = m.entry(k.clone()).or_insert(v.clone()); expect(*got == v, format!("entry({:?}).or_insert on a vacant key gives {:?}", k, got)); }
                 (None, false) => { let p = catch_unwind(AssertUnwindSafe(|| { m.entry(k.clone()).or_insert(v); })); expect(p.is_err(), format!("entry({:?}).or_insert into a full map did not panic", k)); }
             },
